@@ -140,17 +140,20 @@ Fixpoint assoc_fd (fd : Z) (l : list (Z * fskey)) : option fskey :=
 Definition fs_fd_key (fd : Z) (w : fsw) : option fskey := assoc_fd fd (fs_fds w).
 
 (* os.write(fd, data): appends (the only descriptors of this model are the ones mkstemp
-   opened on an empty file, and they are written sequentially) *)
-Definition fs_write (fd : Z) (data : bytes) (w : fsw) : fsw * ores Z :=
+   opened on an empty file, and they are written sequentially).  One call transfers at most
+   [limit] bytes and returns the number transferred (Linux: limit = MAX_RW_COUNT). *)
+Definition fs_write_lim (limit : Z) (fd : Z) (data : bytes) (w : fsw) : fsw * ores Z :=
   match fs_fd_key fd w with
   | None => (w, OErr errno_EBADF)
   | Some k =>
       match fs_look k w with
       | Some (NFile old) =>
-          (mk_fsw ((k, NFile (old ++ data)) :: remove_key k (fs_nodes w)) (fs_fds w) (fs_next_fd w), OOk (zlen data))
+          let sent := if zlen data <=? limit then data else btake (Z.to_N limit) data in
+          (mk_fsw ((k, NFile (old ++ sent)) :: remove_key k (fs_nodes w)) (fs_fds w) (fs_next_fd w), OOk (zlen sent))
       | _ => (w, OErr errno_EBADF)
       end
   end.
+Definition fs_write : Z -> bytes -> fsw -> fsw * ores Z := fs_write_lim max_rw_count.
 
 Definition fs_close (fd : Z) (w : fsw) : fsw * ores unit :=
   match fs_fd_key fd w with
@@ -170,9 +173,10 @@ Definition cat_update (h : cat_hash) (d : bytes) : cat_hash := (fst h, snd h ++ 
 Definition cat_hexdigest (h : cat_hash) : ores bytes :=
   if str_mem (fst h) hash_xof then OExn TypeError else OOk (fst h ++ [58%N] ++ snd h).
 
-Definition fs_runtime : runtime fsw cat_hash :=
-  mk_runtime fsw cat_hash fs_makedirs fs_isdir fs_unlink fs_open_rb fs_mkstemp fs_write fs_close
+Definition fs_runtime_lim (limit : Z) : runtime fsw cat_hash :=
+  mk_runtime fsw cat_hash fs_makedirs fs_isdir fs_unlink fs_open_rb fs_mkstemp (fs_write_lim limit) fs_close
              cat_new cat_update cat_hexdigest.
+Definition fs_runtime : runtime fsw cat_hash := fs_runtime_lim max_rw_count.
 
 (* (b) a recording hash for the correspondence trace: the list of chunks passed to update,
    most recent first (deliberately NOT a model of the contract) *)
